@@ -176,7 +176,30 @@ def summarise(model, func):
                         kn = known_under(e.conds, scope)
                         ds = (ds[0], [kn.get(x.strip('()'), x) for x in ds[1]])
                     sent.append(((port, chan) + (ds if ds else ('?', [norm(d['data'][0])])), c))
-        out.append((p, path_guards(p, scope), sent))
+        guards = path_guards(p, scope)
+        # guards that restate what the packet on this path already is (its payload size / type) are decided by the packet itself
+        if len(sent) == 1 and sent[0][0] != '?':
+            size = fmt_size(sent[0][0][2], sent[0][0][3])
+            if size is not None and not sent[0][0][2].endswith('+tail'):
+                import re
+                decided = {}
+                for gd in guards:
+                    neg = gd.startswith('not ')
+                    core = gd[4:] if neg else gd
+                    mt = re.fullmatch(r'len\((\w+)\.data\)\s*==\s*(\d+)|(\d+)\s*==\s*len\((\w+)\.data\)', core.replace(' ', '').replace('==', ' == ').replace(' ', ''))
+                    val = None
+                    if re.fullmatch(r'\w+\.is_data_size_valid\(\)', core):
+                        val = size <= 30
+                    elif mt:
+                        val = int(mt.group(2) or mt.group(3)) == size
+                    elif re.fullmatch(r'isinstance\(\w+\.data,\s*bytearray\)', core):
+                        val = True
+                    if val is not None:
+                        decided[gd] = (val != neg)
+                if decided and not all(decided.values()):
+                    continue                      # a path that contradicts its own packet is not a path
+                guards = guards - set(decided)
+        out.append((p, guards, sent))
     return out, ex
 
 
@@ -480,7 +503,30 @@ def summarise_scoped(model, func):
                         kn = known_under(p.conds, scope)
                         ds = (ds[0], [kn.get(x.strip('()'), x) for x in ds[1]])
                     sent.append(((port, chan, ds[0], ds[1]), c))
-        out.append((p, path_guards(p, scope), sent))
+        guards = path_guards(p, scope)
+        # guards that restate what the packet on this path already is (its payload size / type) are decided by the packet itself
+        if len(sent) == 1 and sent[0][0] != '?':
+            size = fmt_size(sent[0][0][2], sent[0][0][3])
+            if size is not None and not sent[0][0][2].endswith('+tail'):
+                import re
+                decided = {}
+                for gd in guards:
+                    neg = gd.startswith('not ')
+                    core = gd[4:] if neg else gd
+                    mt = re.fullmatch(r'len\((\w+)\.data\)\s*==\s*(\d+)|(\d+)\s*==\s*len\((\w+)\.data\)', core.replace(' ', '').replace('==', ' == ').replace(' ', ''))
+                    val = None
+                    if re.fullmatch(r'\w+\.is_data_size_valid\(\)', core):
+                        val = size <= 30
+                    elif mt:
+                        val = int(mt.group(2) or mt.group(3)) == size
+                    elif re.fullmatch(r'isinstance\(\w+\.data,\s*bytearray\)', core):
+                        val = True
+                    if val is not None:
+                        decided[gd] = (val != neg)
+                if decided and not all(decided.values()):
+                    continue                      # a path that contradicts its own packet is not a path
+                guards = guards - set(decided)
+        out.append((p, guards, sent))
     return out, ex
 
 
